@@ -175,10 +175,9 @@ func Main() {
 			continue
 		}
 		if !*child {
-			left := *budget - time.Since(start)
-			if left < 10*time.Second {
-				left = 10 * time.Second
-			}
+			// every scenario has the tier's budget to itself (as in engine S): a scenario that is
+			// slowed down by a defect must not starve the ones after it
+			left := *budget
 			st := runIsolated(sc.Name, *prop, *tier, *tmp, left, part)
 			part.Scenarios = append(part.Scenarios, st...)
 			continue
